@@ -644,7 +644,13 @@ func Run(t *testing.T, sc Scenario, track bool) (tr Trace) {
 			}
 		}
 		mu.Lock()
-		tr.LiveObs = len(observations)
+		for i := range observations {
+			// an observation stays registered only if the registration response carried an Observe
+			// option (otherwise the library treats the resource as not observable and drops it)
+			if n := tr.Ops[i].Notifs; len(n) > 0 && n[0].Seq >= 0 {
+				tr.LiveObs++
+			}
+		}
 		mu.Unlock()
 		close(stopTicks)
 		<-tickDone
